@@ -173,6 +173,36 @@ def directed_bytes(s, e, r, tail=None):
     return bs + bytes(r.getrandbits(8) for _ in range(tail))
 
 
+def structured_bytes(s, e, r, tail=None):
+    """words matching spec s whose named fields take coinciding / boundary values (the same register in
+    every register slot, zero registers, all-ones fields ...): operand aliasing that random filling of
+    the free bits almost never produces.  Returns a list of byte strings."""
+    n = s.fix.size
+    if not n:
+        return []
+    rs = reflect_spec(s)
+    fields = [(f[3], f[4]) for f in rs["extsA"] + rs["extsF"] if isinstance(f[3], int) and isinstance(f[4], int) and 0 <= f[3] < f[4] <= n]
+    if not fields:
+        return []
+    free = ~s.mask.ival & ((1 << n) - 1)
+    def word(val_of):
+        w = r.getrandbits(n) & free          # bits outside named fields: random
+        for k, (lo, hi) in enumerate(sorted(fields, key=lambda f: f[1] - f[0], reverse=True)):
+            m = ((1 << (hi - lo)) - 1) << lo
+            w = (w & ~m) | ((val_of(k, hi - lo) << lo) & m)     # narrower fields written last (overlapping '=' fields)
+        return s.fix.ival | (w & free)
+    v = r.choice([1, 2, 3, 5, 7])
+    z = r.randrange(len(fields))
+    words = [word(lambda k, w_: 0), word(lambda k, w_: (1 << w_) - 1), word(lambda k, w_: v & ((1 << w_) - 1)),
+             word(lambda k, w_: 0 if k == z else v & ((1 << w_) - 1)), word(lambda k, w_: (v & ((1 << w_) - 1)) if k == z else 0)]
+    out = []
+    for w in dict.fromkeys(words):
+        bs = w.to_bytes((n + 7) // 8, "little")[: n // 8][::e]
+        t = tail if tail is not None else r.choice([0, 4, 8, 11] if s.size == 0 else [0, 0, 4])
+        out.append(bs + bytes(r.getrandbits(8) for _ in range(t)))
+    return out
+
+
 def all_spec_modules():
     """every importable module below amoco.arch that defines ISPECS (name -> module or error)."""
     import amoco.arch
